@@ -1,10 +1,92 @@
 import HvsrVerif.Drv.Loop
-/-! driver commands of C14 (stateless: one request line in, one answer line out) -/
+import HvsrVerif.Model.Spatial
+/-! driver commands of C14 (stateless: one request line in, one answer line out)
+
+Geometry runs at `Rat`: the request carries IEEE bit patterns, every finite double is converted
+to the rational it denotes, answers are exact `num/den` tokens. Statistics run at `Float`. -/
 namespace HV.Drv
 open HV.Proto
 
+/-- the rational denoted by a finite IEEE-754 double given by its bit pattern -/
+def ratOfBits (n : Nat) : Option Rat :=
+  let neg := n / 2 ^ 63 % 2 == 1
+  let e : Nat := n / 2 ^ 52 % 2048
+  let m : Nat := n % 2 ^ 52
+  if e == 2047 then none else
+  let mant : Nat := if e == 0 then m else m + 2 ^ 52
+  let ex : Int := if e == 0 then -1074 else (e : Int) - 1075
+  let v : Rat := if ex ≥ 0 then ((mant * 2 ^ ex.toNat : Nat) : Rat) else mkRat mant (2 ^ (-ex).toNat)
+  some (if neg then -v else v)
+
+def rat : P Rat := do
+  let t ← tok
+  match hexToNat t with
+  | some n => match ratOfBits n with
+    | some r => pure r
+    | none => throw s!"nonfinite:{t}"
+  | none => throw s!"flt:{t}"
+
+def ratPt : P (Pt Rat) := do
+  let x ← rat; let y ← rat; pure (x, y)
+
+def ratPts : P (List (Pt Rat)) := do rep (← nat) ratPt
+
+def fR (r : Rat) : String := s!"{r.num}/{r.den}"
+def fRVec (v : List Rat) : String := " ".intercalate (toString v.length :: v.map fR)
+def fRPts (v : List (Pt Rat)) : String :=
+  " ".intercalate (toString v.length :: v.map (fun p => fR p.1 ++ " " ++ fR p.2))
+
+def dist : P SpDist := do
+  let t ← tok
+  if t == "normal" then pure .normal else if t == "lognormal" then pure .lognormal else throw s!"dist:{t}"
+
+/-- `spatial.weights coords boundary` (`k x0 y0 x1 y1 …` each) →
+`ok <indices> <weights> <sum==1> <all>=0> hull cells…` -/
+def spatialWeights : P String := do
+  let coords ← ratPts
+  let boundary ← ratPts
+  match voronoiWeights coords boundary with
+  | .error e => pure ("err " ++ e)
+  | .ok o =>
+    let s : Rat := o.weights.foldl (· + ·) 0
+    let sumOne := decide (s = 1)
+    let nonneg := o.weights.all (fun w => decide (0 ≤ w))
+    pure (" ".intercalate (["ok", fNVec o.indices, fRVec o.weights, fB sumOne, fB nonneg, fRPts o.hull,
+      toString o.cells.length] ++ o.cells.map fRPts))
+
+/-- `spatial.stats dist realisations weights` → `ok mean std` | `none` -/
+def spatialStatsOp : P String := do
+  let s ← dist
+  let r ← mat
+  let w ← vec
+  match spatialStats s r w with
+  | none => pure "none"
+  | some (m, sd) => pure s!"ok {fF m} {fF sd}"
+
+/-- `spatial.rawstats values weights` (`_statistics`) → `ok mean std` | `none` -/
+def spatialRawStats : P String := do
+  let r ← mat
+  let w ← vec
+  match statistics r w with
+  | none => pure "none"
+  | some (m, sd) => pure s!"ok {fF m} {fF sd}"
+
+/-- `spatial.mc gen spatial draws weights` → `ok mean std realisations` | `none` -/
+def spatialMc : P String := do
+  let g ← dist
+  let s ← dist
+  let d ← mat
+  let w ← vec
+  match montecarlo g s d w with
+  | none => pure "none"
+  | some (m, sd, r) => pure s!"ok {fF m} {fF sd} {fMat r}"
+
 def opsC14 (op : String) : Option (P String) :=
   match op with
+  | "spatial.weights" => some spatialWeights
+  | "spatial.stats" => some spatialStatsOp
+  | "spatial.rawstats" => some spatialRawStats
+  | "spatial.mc" => some spatialMc
   | _ => none
 
 end HV.Drv
